@@ -58,7 +58,7 @@ def sample_norm(vn, func):
 SITE_REFS = {r for r, _ in SITES}
 
 
-def analyse_site(chk, prog, ref, min_divs):
+def analyse_site(chk, prog, ref, min_divs, only_config=False):
     f = prog.func(ref)
     chk.touch(f)
     state_writes = []
@@ -98,7 +98,7 @@ def analyse_site(chk, prog, ref, min_divs):
         divisions.extend(sub.divisions)
     n = 0
     norms_used = set()
-    for d in divisions:
+    for d in ([] if only_config else divisions):
         hits = sample_norm(d["vn"], f)
         if not hits:
             continue
@@ -115,7 +115,7 @@ def analyse_site(chk, prog, ref, min_divs):
             chk.finding("GUARD-DIV", f.module.rel, f.qname, "unguarded division: %s" % text,
                         "division by the norm of the sensor sample `%s` is reachable with a zero norm (all-zero dropout sample gives 0/0 = NaN)" % ", ".join(hits),
                         line=node.lineno)
-    if n < min_divs:
+    if n < min_divs and not only_config:
         chk.error("GUARD-DIV: %s has %d sample-norm divisions, %d confirmed by hand" % (ref, n, min_divs))
     # carried-state writes happen after all guards of norms this function divides by
     cls = f.cls.name if f.cls else None
